@@ -1,6 +1,7 @@
 package absint
 
 import (
+	"go/ast"
 	"go/types"
 	"sort"
 
@@ -21,6 +22,11 @@ type Region struct {
 	Bind    map[*types.Var]string // local variable -> dimension key whose value it holds at region entry
 	BindVal map[*types.Var]Val    // local variable -> fixed abstract value at region entry
 	Observe []*types.Var          // locals whose value is recorded at every region exit
+	// Prelude: side-effect-free definitions of locals that the region reads but that are made before it
+	// (e.g. `localIsLite := pc.api.settingEngine.candidates.ICELite`). They are evaluated, in order, in the
+	// entry state (after Bind/BindVal), so that moving a pure definition across the region boundary or naming
+	// a sub-expression does not turn the local into Top. The caller guarantees they dominate Start and are pure.
+	Prelude []ast.Stmt
 }
 
 type regionSpec struct {
@@ -28,6 +34,17 @@ type regionSpec struct {
 	start int
 	stops map[int]string
 	r     Region
+}
+
+// runPrelude evaluates the region's prelude definitions in st (a statement that forks or fails leaves its targets unknown).
+func (rs *regionSpec) runPrelude(in *Interp, st *State) *State {
+	for _, stmt := range rs.r.Prelude {
+		outs := in.execStmt(rs.g, stmt, st)
+		if len(outs) == 1 && outs[0].panic == "" {
+			st = outs[0].st
+		}
+	}
+	return st
 }
 
 func (rs *regionSpec) bindLocals(st *State) {
